@@ -126,3 +126,15 @@ func vh_C01_L10_short_read_keeps_the_message()  { vh_C18_L3_short_buffer() }
 
 // C01.L11: a message that arrives between a timed-out read and the next one is not lost (= C18.L4).
 func vh_C01_L11_data_arriving_after_a_timed_out_read_is_kept() { vh_C18_L4_read_deadline() }
+
+// C01.L12: nothing an established association receives out of place can cost it a message:
+// stale handshake chunks leave tags and TSN points alone (= C04.L2), a reset response nobody
+// waits for changes no sequence number (= C03.L10), a failed blocking write gives back
+// exactly the number it took (= C20.L9).
+func vh_C01_L12_stale_handshake_chunks_leave_sequence_state_alone() { vh_C04_L2_stale_chunks_ignored() }
+func vh_C01_L12_unexpected_reset_response_changes_no_numbers() {
+	vh_C03_L10_reset_response_for_unknown_request()
+}
+func vh_C01_L12_failed_blocking_write_gives_back_its_number() {
+	vh_C20_L9_parked_write_fails_while_others_go_on()
+}
